@@ -506,7 +506,20 @@ impl Writer {
         };
         // Sync immediately if the strategy is "always"
         if let SyncStrategy::Always = self.ctx.conf.sync {
-            self.writer.sync()?;
+            if let Err(e) = self.writer.sync() {
+                // The entry is in the file although the caller is told that the operation failed
+                // and the KeyDir will not point to it. Account for it as dead, so that the file is
+                // known to the merging process: a tombstone in a newer file must not be dropped
+                // while this file is kept.
+                self.written_bytes += index.len;
+                let mut stats = self.ctx.stats.entry(self.active_fileid).or_default();
+                if datafile_entry.value.is_some() {
+                    stats.add_dead(index.len);
+                } else {
+                    stats.add_tombstone(index.len);
+                }
+                return Err(e.into());
+            }
         }
         // Record number of bytes have been written to the active file
         self.written_bytes += index.len;
